@@ -37,7 +37,51 @@ let leaf ws = match ws with
       | "O2" -> Gen_IndexOpen2N2.coq_GetNextBucketIndex (z_of_string i) bc (z_of_string p)
       | _ -> Gen_IndexOpen8.coq_GetNextBucketIndex (z_of_string i) bc (z_of_string p)) in
     string_of_z st ^ " " ^ string_of_z nx
+  | "bops" :: "o2" :: _ :: _ :: toks ->
+    (* one BucketOpen2N2<3> bucket: generated AddCrt / Remove / UpdateMaxProbe / Clear; all bookkeeping bytes + IsFull *)
+    let zf = (fun _ -> z_of_int 0) in
+    let (m0, s0) = Gen_Open2N2_ops.pvSetEmpty zf zf zf in
+    let st = ref (m0, s0, zf) in let bad = ref "" in
+    Stdlib.List.iter (fun tok -> if !bad = "" then begin
+      let (m, s, h) = !st in
+      let f = Stdlib.List.map z_of_string (Stdlib.List.tl (String.split_on_char ':' tok)) in
+      match tok.[0], f with
+      | 'A', [hc; lbc; pr] -> (match Gen_Open2N2_ops.coq_AddCrt m s h hc lbc pr (z_of_int 0) with
+          | GenPrelude.Ok (((_, m'), s'), h') -> st := (m', s', h') | _ -> bad := "stuck")
+      | 'R', [j] -> (match Gen_Open2N2_ops.coq_Remove m s h (z_of_int (2 - int_of_z j)) with
+          | GenPrelude.Ok (((_, m'), s'), h') -> st := (m', s', h') | _ -> bad := "stuck")
+      | 'U', [p] -> (match Gen_Open2N2_ops.coq_UpdateMaxProbe m s h p with GenPrelude.Ok (_, m') -> st := (m', s, h) | _ -> bad := "stuck")
+      | _ -> let (m', s') = Gen_Open2N2_ops.coq_Clear m s h in st := (m', s', h) end) toks;
+    if !bad <> "" then !bad else begin
+      let (m, s, h) = !st in let g f i = string_of_z (f (z_of_int i)) in
+      Printf.sprintf "%s %s %s %s %s %s %s %s %s %d" (g m 0) (g m 1) (g s 0) (g s 1) (g s 2) (g h 0) (g h 1) (g h 2)
+        (string_of_z (Gen_Open2N2_ops.pvGetCount m s h)) (if Gen_Open2N2_ops.coq_IsFull m s h then 1 else 0) end
+  | "bops" :: (("n1" | "n1f") as knd) :: mcs :: _ :: toks ->
+    let mc = z_of_string mcs in let rv = (knd = "n1") in
+    let st = ref (Gen_OpenN1_ops.pvSetEmpty mc (fun _ -> z_of_int 0)) in let bad = ref "" in
+    Stdlib.List.iter (fun tok -> if !bad = "" then begin
+      let d = !st in
+      let f = Stdlib.List.map z_of_string (Stdlib.List.tl (String.split_on_char ':' tok)) in
+      match tok.[0], f with
+      | 'A', [hc; _; _] -> (match Gen_OpenN1_ops.coq_AddCrt rv mc d hc (z_of_int 0) with GenPrelude.Ok (_, d') -> st := d' | _ -> bad := "stuck")
+      | 'R', [j] -> (match Gen_OpenN1_ops.coq_Remove rv mc d j with GenPrelude.Ok (_, d') -> st := d' | _ -> bad := "stuck")
+      | 'U', [p] -> (match Gen_OpenN1.coq_UpdateMaxProbe mc d p with GenPrelude.Ok (_, d') -> st := d' | _ -> bad := "stuck")
+      | _ -> st := Gen_OpenN1_ops.coq_Clear mc d end) toks;
+    if !bad <> "" then !bad else begin
+      let d = !st in let b = Buffer.create 32 in
+      for i = 0 to int_of_z mc do Buffer.add_string b (string_of_z (d (z_of_int i)) ^ " ") done;
+      Buffer.contents b ^ Printf.sprintf "%s %d" (string_of_z (Gen_OpenN1_ops.pvGetCount rv mc d)) (if Gen_OpenN1_ops.coq_IsFull rv mc d then 1 else 0) end
   | ["cnt"; l] -> string_of_z (Gen_Buckets.coq_GetCount (z_of_string l))
+  | ["rsv"; kind; nl0; n] ->
+    (* generated HashSet::Reserve size loop over the generated policy of that bucket kind *)
+    let mc = z_of_int (match kind with "L4" -> 4 | "L1" -> 1 | "O3" -> 3 | _ -> 7) in
+    let tc bc m = (match kind with
+      | "L4" | "L1" -> (match Gen_PolicyBase.coq_CalcCapacity bc m with GenPrelude.Ok v -> v | _ -> z_of_int 0)
+      | "O3" -> Gen_PolicyOpen2N2.coq_CalcCapacity m bc
+      | _ -> Gen_PolicyOpen8.coq_CalcCapacity bc m) in
+    (match Gen_HashSetGrow.coq_Reserve_loop0 mc tc Gen_HashSetGrow.fuel_of_Reserve (z_of_string n) (z_of_int 0) (z_of_int 0) (z_of_string nl0) with
+     | GenPrelude.Ok (_, (cap, lg)) -> string_of_z lg ^ " " ^ string_of_z cap
+     | GenPrelude.Exn -> "EXN" | GenPrelude.Fuel -> "Fuel" | GenPrelude.Stuck -> "Stuck")
   | _ -> "?leaf"
 let () = iter_lines (fun line ->
   try
